@@ -17,7 +17,11 @@
 #define __CPROVER_assert(c, msg) assert((c) && msg)
 #define __CPROVER_assume(c) do { if (!(c)) abort(); } while (0)
 #define VF_DUMMY_INIT = 0
+#define VF_CHECK_WRITE_SRC(p, n) ((void)0)
+#define VF_CHECK_READ_DST(p, n) ((void)0)
 #else
+#define VF_CHECK_WRITE_SRC(p, n) __CPROVER_assert((n) <= 0 || __CPROVER_r_ok((p), (size_t)(n)), "ostream::write source: n bytes readable inside one object")
+#define VF_CHECK_READ_DST(p, n) __CPROVER_assert((n) <= 0 || __CPROVER_w_ok((p), (size_t)(n)), "istream::read destination: n bytes writable inside one object")
 #define VF_DUMMY_INIT /* value returned while an exception propagates: never read, left nondeterministic */
 #endif
 
@@ -94,6 +98,7 @@ extern unsigned char *vf_file_img;
 extern size_t vf_file_len;
 extern size_t vf_file_cap;
 extern _Bool vf_file_openable;
+extern _Bool vf_fault_enabled;
 /* fault injection for writes/close: the harness leaves these unconstrained          */
 _Bool nondet_vf_fault(void);
 
